@@ -158,6 +158,45 @@ var independent = ev.Register(&ev.P[termCase]{
 	Disjoint: true,
 })
 
+// tolerance (seconds) for |library delta-T − Espenak-Meeus delta-T|: measured models (through 2019)
+// agree to a few seconds; later years are extrapolations whose parabolas legitimately diverge.
+func dtTol(y int) float64 {
+	switch {
+	case y < 2020:
+		return 10
+	case y < 2150:
+		return 60
+	case y < 2500:
+		return 70
+	default:
+		return 210
+	}
+}
+
+type dtCase struct {
+	Y    int
+	Half bool
+}
+
+var deltaT = ev.Register(&ev.P[dtCase]{
+	Name: "delta_t_vs_independent",
+	Rule: "every half year 1..3000; oracle: the library's delta-T (exported DtT), which converts the dynamical-time root into the reported UTC+8 instant, agrees with the Espenak-Meeus 2006 polynomials within 10 s through 2019 (observed max 4.5 s) and within the extrapolation envelope 60/70/210 s up to 2150/2500/3000; together with the 1 s root check this pins reported instants to ~10 s independently of the library's own delta-T table; distinct = (year, half)",
+	Check: func(c dtCase) error {
+		yy := float64(c.Y)
+		if c.Half {
+			yy += 0.5
+		}
+		lib := ShouXingUtil.DtT((yy-2000)*365.2425) * 86400
+		em := ref.DeltaT(yy)
+		if math.Abs(lib-em) > dtTol(c.Y) {
+			return fmt.Errorf("delta-T at %.1f: library %.1f s, Espenak-Meeus %.1f s (tolerance %.0f s)", yy, lib, em, dtTol(c.Y))
+		}
+		return nil
+	},
+	Class:    func(c dtCase) ([]string, bool) { return []string{gen.Era(c.Y)}, true },
+	Disjoint: true,
+})
+
 // ------------------------------------------------------------------------------------------
 // look-ups
 
@@ -325,6 +364,13 @@ func TestC03(t *testing.T) {
 		root.Exhaustive("every (year 1..9998, entry 0..30)")
 		independent.Exhaustive("every (year 1..3000, entry 0..30)")
 		lookups.Exhaustive("every term instant of every year with offsets {0,+-1 s, day start, day end, +-1 day noon}")
+	}
+	deltaT.Exhaustive("every half year 1..3000")
+	for y := 1; y <= 3000; y++ {
+		if ev.Mine(y) {
+			deltaT.Eval(dtCase{y, false})
+			deltaT.Eval(dtCase{y, true})
+		}
 	}
 	for _, y := range years {
 		if !ev.Mine(y) {
